@@ -22,7 +22,7 @@ from mc.ref import si
 from mc.ref import reaction as R
 
 core.setup_paths()
-from strengths.rdnetwork import Reaction, RDNetwork, Species  # noqa: E402
+from strengths.rdnetwork import Reaction, RDNetwork, Species, rdnetwork_from_dict  # noqa: E402
 from strengths.units import UnitValue, UnitsSystem  # noqa: E402
 
 TOL = 1e-9
@@ -610,6 +610,100 @@ def _case_net(case, out):
                         % (i, eq, ri.ssto(net.species_labels()), ri.psto(net.species_labels()), species)))
 
 
+# ---- networks: duplicate labels in every object form --------------------------------------------------
+#
+# "A network refuses ... duplicate species or reaction labels" is about LABELS: the same Species object
+# listed twice, an object and its copy(), and two distinct objects with one label all carry a duplicated
+# label.  Unlabelled reactions may repeat, also as the same object twice.  Claimed for the constructor and
+# for rdnetwork_from_dict (which builds through it); the species / reactions setters are not claimed (no
+# document promises validation on assignment).
+
+OBJ_EQS = ["A -> B", "B -> A + C", "2 A -> C", "-> B"]
+OBJ_PAIRS = [(n, i, j) for n in (2, 3, 4) for i in range(n) for j in range(i + 1, n)]      # 10
+
+
+def _netobj_build(case):
+    """-> (species objects, reaction objects, species dicts, reaction dicts, expectation)."""
+    kind, form, n, i, j = case["kind"], case["form"], case["n"], case["i"], case["j"]
+    if kind == "species":
+        labels = ["A", "B", "C", "D"][:n]
+        objs = [Species(l, D=k + 1) for k, l in enumerate(labels)]
+        dicts = [{"label": l, "D": k + 1} for k, l in enumerate(labels)]
+        if form == "distinct":
+            objs[j] = Species(labels[i], D=9)
+            dicts[j] = {"label": labels[i], "D": 9}
+        elif form == "same":
+            objs[j] = objs[i]
+            dicts[j] = dicts[i]
+        elif form == "copy":
+            objs[j] = objs[i].copy()
+            dicts[j] = dict(dicts[i])
+        elif form == "twice":
+            objs, dicts = objs * 2, dicts * 2
+        elif form != "none":
+            raise ValueError(form)
+        x = labels[i]
+        if case["withreaction"]:
+            return objs, [Reaction("%s -> 2 %s" % (x, x), label="r")], dicts, \
+                [{"stoichiometry": "%s -> 2 %s" % (x, x), "label": "r"}], ("refuse" if form != "none" else "accept")
+        return objs, [], dicts, [], ("refuse" if form != "none" else "accept")
+    labelled = kind == "reaction"
+    sp = [Species("A"), Species("B"), Species("C")]
+    spd = [{"label": "A"}, {"label": "B"}, {"label": "C"}]
+    labs = [("r%d" % (k + 1)) if labelled else None for k in range(n)]
+    objs = [Reaction(OBJ_EQS[k], kf=k + 1, label=labs[k]) for k in range(n)]
+    dicts = [{"stoichiometry": OBJ_EQS[k], "k+": k + 1, "label": labs[k]} for k in range(n)]
+    if form == "distinct":            # another equation under the same label
+        objs[j] = Reaction(OBJ_EQS[j], kf=9, label=labs[i])
+        dicts[j] = {"stoichiometry": OBJ_EQS[j], "k+": 9, "label": labs[i]}
+    elif form == "distinct-equal":    # an equal reaction built separately
+        objs[j] = Reaction(OBJ_EQS[i], kf=i + 1, label=labs[i])
+        dicts[j] = {"stoichiometry": OBJ_EQS[i], "k+": i + 1, "label": labs[i]}
+    elif form == "same":
+        objs[j] = objs[i]
+        dicts[j] = dicts[i]
+    elif form == "copy":
+        objs[j] = objs[i].copy()
+        dicts[j] = dict(dicts[i])
+    elif form == "twice":
+        objs, dicts = objs * 2, dicts * 2
+    elif form != "none":
+        raise ValueError(form)
+    return sp, objs, spd, dicts, ("refuse" if (labelled and form != "none") else "accept")
+
+
+def _case_netobj(case, out):
+    sp, rs, spd, rsd, expect = _netobj_build(case)
+    kind, form, route = case["kind"], case["form"], case["route"]
+    if route not in ("ctor", "ctor-tuple", "from_dict"):
+        raise ValueError(route)
+    net, err = None, None
+    try:
+        if route == "ctor":
+            net = RDNetwork(sp, rs)
+        elif route == "ctor-tuple":
+            net = RDNetwork(tuple(sp), tuple(rs))
+        else:
+            net = rdnetwork_from_dict({"species": spd, "reactions": rsd})
+    except Exception as e:
+        err = e
+    what = "%s, form %s, positions %d,%d of %d, route %s: species %s, reactions %s" % (
+        kind, form, case["i"], case["j"], case["n"], route, [x.label for x in sp],
+        [(r.to_string().strip(), r.label) for r in rs])
+    if expect == "refuse":
+        if net is not None:
+            which = "duplicate-species" if kind == "species" else "duplicate-reaction-label"
+            out.append(("%s:RDNetwork:accepted:%s:%s:%s" % (PID, which, form, route), what + " was accepted"))
+        return
+    if net is None:
+        tag = "valid-network-rejected" if form == "none" else "repeated-unlabelled-reaction-rejected:" + form
+        out.append(("%s:RDNetwork:%s:%s" % (PID, tag, route), what + " raised %s: %s" % (type(err).__name__, err)))
+        return
+    if net.nspecies() != len(sp) or net.nreactions() != len(rs) or net.species_labels() != [x.label for x in sp]:
+        out.append(("%s:RDNetwork:contents:%s" % (PID, route), what + " -> %d species, %d reactions"
+                    % (net.nspecies(), net.nreactions())))
+
+
 # ---- E2: operation histories on ONE Reaction object ---------------------------------------------------
 #
 # The statement's "the equilibrium constant is their ratio", "splitting it gives ... the same constants" speak
@@ -864,7 +958,7 @@ class SeqSpace:
 
 _DISPATCH = {"eq": _case_eq, "kbare": _case_kbare, "kexp": _case_kexp, "kwrong": _case_kwrong,
              "kdict": _case_kdict, "kdictwrong": _case_kdictwrong, "net": _case_net,
-             "hist": _case_hist, "nethist": _case_nethist}
+             "hist": _case_hist, "nethist": _case_nethist, "netobj": _case_netobj}
 
 
 def check_case(case):
@@ -1007,6 +1101,30 @@ def _spaces(tier):
                     build=lambda d: {"sub": "net", "species": d["species"],
                                      "reactions": [[], [("%s -> 2 %s" % (d["species"][0], d["species"][1]), "r")],
                                                    [("%s + %s -> Q" % (d["species"][1], d["species"][0]), None)]][d["rk"]]}))
+    # -- duplicate labels in every object form
+    routes = ["ctor", "ctor-tuple", "from_dict"]
+
+    def pair_build(d):
+        n, i, j = d["pair"]
+        c = {"sub": "netobj", "kind": d["kind"], "form": d["form"], "n": n, "i": i, "j": j, "route": d["route"]}
+        if d["kind"] == "species":
+            c["withreaction"] = d["withreaction"]
+        return c
+    sp.append(Space("netobj/species: duplicate species label at every pair of positions of lists of 2..4 (10) x object form {distinct objects, same object twice, object and its copy()} x {no reaction, one reaction} x {constructor(list), constructor(tuple), rdnetwork_from_dict}: must be refused",
+                    "netobj", [("pair", OBJ_PAIRS), ("form", ["distinct", "same", "copy"]), ("withreaction", [False, True]),
+                               ("route", routes)], const={"kind": "species"}, build=pair_build))
+    sp.append(Space("netobj/reaction: duplicate reaction label at every pair of positions of lists of 2..4 (10) x {distinct (other equation), distinct (equal reaction), same object twice, copy()} x 3 routes: must be refused",
+                    "netobj", [("pair", OBJ_PAIRS), ("form", ["distinct", "distinct-equal", "same", "copy"]), ("route", routes)],
+                    const={"kind": "reaction"}, build=pair_build))
+    sp.append(Space("netobj/unlabelled: the same 10 x 4 x 3 with label None: repeated unlabelled reactions (also the same object twice) must be accepted",
+                    "netobj", [("pair", OBJ_PAIRS), ("form", ["distinct", "distinct-equal", "same", "copy"]), ("route", routes)],
+                    const={"kind": "unlabelled"}, build=pair_build))
+    sp.append(Space("netobj/whole list twice ([..]*2, n = 1..4) and the duplicate-free controls (n = 1..4), for species / labelled / unlabelled reactions x 3 routes",
+                    "netobj", [("kind", ["species", "reaction", "unlabelled"]), ("form", ["twice", "none"]), ("n", [1, 2, 3, 4]),
+                               ("route", routes)],
+                    build=lambda d: dict({"sub": "netobj", "kind": d["kind"], "form": d["form"], "n": d["n"], "i": 0,
+                                          "j": 0, "route": d["route"]},
+                                         **({"withreaction": True} if d["kind"] == "species" else {}))))
     # -- histories on one object (E2)
     rx_all = list(range(len(HIST_RX)))
     if thorough:
@@ -1057,7 +1175,9 @@ def _work(job):
         res = check_case(case)
         sub = case["sub"]
         ops = {"eq": 14, "kbare": 9, "kexp": 6, "kwrong": 2, "kdict": 6, "kdictwrong": 1, "net": 4,
-               "hist": 0, "nethist": 0}[sub]
+               "hist": 0, "nethist": 0, "netobj": 1}[sub]
+        if sub == "netobj":
+            acc.count("networks_with_duplicate_label_as_" + case["form"].replace("-", "_"))
         if sub in ("hist", "nethist"):
             k = len(case["ops"])
             ops = k + 12 * (k if case.get("mode") != "last" else 1)
